@@ -1,3 +1,3 @@
 #!/bin/bash
 # mktwin.sh R07 1 -> /tmp/tw/R07-1 (scratch tree with the twin applied)
-d=/tmp/tw/$1-$2; rm -rf $d; mkdir -p $d; git -C /repo archive HEAD | tar -x -C $d; (cd $d && git apply /tmp/twins/$1/$2/patch.diff) && echo $d
+src=${3:-/tmp/twins}; d=/tmp/tw/$1-$2; rm -rf $d; mkdir -p $d; git -C /repo archive HEAD | tar -x -C $d; (cd $d && git apply $src/$1/$2/patch.diff) && echo $d
